@@ -28,7 +28,7 @@ ASSUMPTIONS = [
 FLOORS = {'library_calls': 20000, 'formula_calls': 300,
           'identity_checks': 200, 'functions_seen': 13,
           'non_text_arguments': 50, 'text_form_views': 100,
-          'blank_count_cases': 40}
+          'blank_count_cases': 40, 'texts_spelt_like_names': 300}
 ANCHOR_FUNCS = {'xlcalculator/xlfunctions/text.py': [
     'LEN', 'LEFT', 'RIGHT', 'MID', 'FIND', 'REPLACE', 'UPPER', 'LOWER',
     'TRIM', 'EXACT', 'CONCAT', 'CONCATENATE']}
@@ -482,6 +482,79 @@ def run(ctx):
                          {'identity': name, 'formula': text,
                           'observed': got}, monitor='identities',
                          group='identity:' + name)
+    # ---- a workbook with defined names: a text that happens to be SPELT like
+    # one of the names (or like a cell address, a function, a sheet) is still
+    # that text ----------------------------------------------------------------
+    if ctx.shard in (0, 1) or thorough:
+        import os
+        from vlib import bootstrap, xlsxw
+        from xlcalculator import Evaluator, ModelCompiler
+        names_ = [('rate', 'Sheet1!$A$1'), ('label', 'Sheet1!$A$2'),
+                  ('Total', 'Sheet1!$A$1:$A$3'), ('x', 'Data!$B$2'),
+                  ('Data', 'Sheet1!$A$3'), ('TAX_2024', 'Data!$A$1')]
+        words = [n_ for n_, _ in names_] + ['RATE', 'Label', 'A1', 'Sheet1',
+                                            'Sheet1!A1', 'LEN', 'total']
+        sb = xlsxw.SheetBuilder()
+        sb.put_value('Sheet1', 1, 1, 0.25)
+        sb.put_value('Sheet1', 1, 2, 'net')
+        sb.put_value('Sheet1', 1, 3, 7)
+        sb.put_value('Data', 1, 1, 19)
+        sb.put_value('Data', 2, 2, 3)
+        sb.names = list(names_)
+        probes = []
+        for w in words:
+            q = subject.lit(w)
+            probes += [
+                (f'=LEN({q})', ('num', float(len(w)))),
+                (f'=LEFT({q},3)', ('text', w[:3])),
+                (f'=RIGHT({q},2)', ('text', w[-2:])),
+                (f'=MID({q},2,3)', ('text', w[1:4])),
+                (f'=UPPER({q})', ('text', w.upper())),
+                (f'=LOWER({q})', ('text', w.lower())),
+                (f'="<"&{q}&">"', ('text', '<' + w + '>')),
+                (f'=CONCAT({q},"-",{q})', ('text', w + '-' + w)),
+                (f'=EXACT({q},{q})', ('bool', True)),
+                (f'=FIND("a",{q}&"a")', ('num', float((w + 'a').find('a')
+                                                      + 1))),
+                (f'=REPLACE({q},1,1,"#")', ('text', '#' + w[1:])),
+                (f'=TRIM(" "&{q}&" ")', ('text', w)),
+                (f'=IF({q}="zzz",1,LEN({q}))', ('num', float(len(w)))),
+            ]
+        # the names themselves still work next to such texts
+        probes += [('=rate*4', ('num', 1.0)), ('=label&"!"', ('text', 'net!')),
+                   ('=SUM(Total)', None), ('=LEN("rate")+rate',
+                                           ('num', 4.25)),
+                   ('=x+Data', ('num', 10.0))]
+        for i, (text, _) in enumerate(probes, start=1):
+            sb.put_formula('Sheet1', 5, i, text)
+        path = os.path.join(bootstrap.VERIF, 'out', 'c17',
+                            f'names{ctx.shard}.xlsx')
+        os.makedirs(os.path.dirname(path), exist_ok=True)
+        sb.write(path)
+        try:
+            ev = Evaluator(ModelCompiler().read_and_parse_archive(path))
+            outs = [subject.outcome_of(lambda: ev.evaluate(f'Sheet1!E{i}'))
+                    for i in range(1, len(probes) + 1)]
+        except Exception as e:  # noqa
+            outs = [('raised', repr(e)[:200])] * len(probes)
+        try:
+            os.remove(path)
+        except OSError:
+            pass
+        for (text, want), got in zip(probes, outs):
+            if want is None:
+                continue
+            ctx.event('formula_calls')
+            ctx.event('texts_spelt_like_names')
+            ctx.case(('spelt-like-a-name', text))
+            if got != ('value', want):
+                ctx.fail(f'{text} in a workbook with the defined names '
+                         f'{[n_ for n_, _ in names_]}: observed {got}, '
+                         f'expected {want}',
+                         {'formula': text, 'defined_names': names_,
+                          'observed': got, 'expected': want},
+                         monitor='string-semantics',
+                         group='spelt-like-a-name:' + text[:6])
     ctx.data['functions'] = sorted(R.seen)
 
 
